@@ -592,7 +592,7 @@ class Gen:
         for m in mods: rng.shuffle(m["augs"])
         # deviations from the last module (never the base itself)
         if nmod > 1 and rng.random() < 0.5:
-            cands = [(p, n) for p, n in self.flat(top) if n["name"] != "k" and n["kind"] not in ("input", "output")]
+            cands = [(p, n) for p, n in self.flat(top) if n["name"] != "k"]
             rng.shuffle(cands)
             for p, n in cands[:rng.randrange(1, 3)]:
                 path = [(names[0], x) for x in p]
@@ -752,6 +752,10 @@ def witnesses():
                              {"name": "cwp", "data": [], "augs": [{"path": [("cwo", "c2")], "whens": 1, "status": 0, "iffs": ["f2"], "kids": [U("gop")]},
                                                                   {"path": [("cwo", "op"), ("cwo", "input")], "whens": 0, "status": 0, "iffs": [], "kids": [N("leaf", "a2", mand=True)]},
                                                                   {"path": [("cwo", "c1"), ("cwo", "evt")], "whens": 0, "status": 0, "iffs": [], "kids": [N("leaf", "more")]}], "devs": []}]}))
+    # deviate not-supported on the input of an rpc: the children go, the embedded input node stays
+    out.append(("dev-input", {"features": [], "typedefs": [], "groupings": [],
+                "mods": [{"name": "cda", "data": [N("action", "op", kids=[N("input", "input", kids=[N("leaf", "a"), N("leaf", "b", mand=True)]), N("output", "output", kids=[N("leaf", "r")])])], "augs": [], "devs": []},
+                         {"name": "cdb", "data": [], "augs": [], "devs": [{"path": [("cda", "op"), ("cda", "input")], "deviates": [{"kind": "not-supported", "dflts": [], "config": None, "mand": None, "min": None, "max": None, "units": None}]}]}]}))
     # mandatory child disabled by if-feature: the parent's mandatory flag
     out.append(("mand-disabled", {"features": [], "typedefs": [], "groupings": [],
                 "mods": [{"name": "cwi", "data": [N("container", "c", kids=[N("leaf", "x", mand=True, iffs=["f1"]), N("leaf", "y")]),
@@ -885,6 +889,11 @@ def run_exp(cx):
             # … and not at all on an action / notification (it only gets there from a uses / augment)
             clamp = lambda t: re.sub(r"\|[0-9]+$", "|*", t) if re.search(r"\|(action|RPC|notification)\|", t) else re.sub(r"\|[1-9][0-9]*$", "|1", t)
             a, b = [clamp(t) for t in a], [clamp(t) for t in b]
+        if tag.startswith("damaged") and ex == 0 and a[:2] == ["err", "Fail"] and b[0] == "ok":
+            # a damaged set that only a LATER module repairs (e.g. min > max until a deviation replaces max): with immediate
+            # compilation the load of the damaged module alone fails; the model describes the completely loaded set
+            cx.dist["c11exp:damaged-set-fails-before-the-repairing-module-is-loaded"] += 1
+            continue
         if a != b:
             cx.disagree("compile", hlines[int(hid)] + "  ## " + rend + " " + tag + " ## model: " + mlines[int(mid)][:2000], a, b)
     # the model's own law: compile = compile of the expansion; and it never runs out of fuel
@@ -901,7 +910,7 @@ def run_exp(cx):
     for hid in sorted(hmeta, key=int):
         nm, tag, rend, o, ex, mid, s = hmeta[hid]
         a = ri.get(hid, ["err", "NoReply"])
-        if rend != "structured" or a[:2] == ["err", "Crash"]:
+        if rend != "structured" or a[:2] == ["err", "Crash"] or (tag.startswith("damaged") and a[0] != "ok"):
             continue
         key = tuple(sorted(a))
         if nm not in ref:
